@@ -235,7 +235,7 @@ fn check_block(a: &AnimS, rank: u64, acc: &mut Acc) {
 }
 
 const PRELUDE: &str = r#"
-#![allow(unused, non_snake_case)]
+#![allow(warnings)]
 use mina::prelude::*;
 
 #[derive(Animate, Clone, Debug, Default, PartialEq)]
